@@ -229,6 +229,24 @@ def run(ck):
             for mid in ("f := func() { %s; return 1 }; f()", "f := func() { g := func() { %s }; g() }; f()", "%s"):
                 add(src=(outer % (mid % inner)) + "\n", tag="nesting:loop-func-loop", run=True)
                 add(src=(outer % (mid % inner)) + "\n", tag="nesting:loop-func-loop/module", asmod=True, run=True)
+    # ---- (6e) unreachable code of every shape: statements after return / break / continue, with their own branches and
+    #      loops inside (the optimizer removes them: jump targets inside removed code, back-jumps to removed loop heads)
+    dead_stmts = ("x := 1", "for i := 0; i < 3; i++ { if i { continue } }", "for i := 0; i < 3; i++ { z := i || 2 }",
+                  "for v in [1, 2] { w := v ? 1 : 2 }", "for { if q { break }; q = !q }", "for k, v in {a: 1} { if k { continue } else { break } }",
+                  "if q { return 2 } else if !q { return 3 }", "w := q ? 1 : 2", "w := q && len([q])", "for { for { break }; break }",
+                  "g := func() { for { if q { return 1 } } }", "if q { } else { for { break } }", "return 5", "for false { }",
+                  "for i := 0; i < 2; i++ { for j in [1] { if i == j { continue }; if j { break } } }")
+    dead_ctxs = ("f := func(q) { return 1; %s }\nr := f(true)", "f := func(q) { if q { return 1 } else { return 2 }; %s }\nr := f(false)",
+                 "f := func(q) { for { break; %s }; return 1 }\nr := f(true)", "f := func(q) { for i := 0; i < 2; i++ { continue; %s }; return 1 }\nr := f(true)",
+                 "f := func(q) { for { return 1; %s } }\nr := f(true)", "f := func(q) { return func() { return 1; %s }() }\nr := f(true)",
+                 "q := true\nfor { break; %s }", "q := true\nfor i := 0; i < 2; i++ { continue; %s }",
+                 "f := func(q) { if q { return 1; %s }; return 2 }\nr := f(true)", "f := func(q) { return 1; %s; %s }\nr := f(true)")
+    for dctx in dead_ctxs:
+        for dst in dead_stmts:
+            if dst.startswith("return") and dctx.startswith("q :="):
+                continue
+            add(src=dctx.replace("%s", dst).replace("\\n", "\n") + "\n", tag="dead-code", run=True)
+            add(src=dctx.replace("%s", dst).replace("\\n", "\n") + "\n", tag="dead-code/module", asmod=True, run=True)
     # ---- (7) embedder-supplied importables returning every kind of value
     for kind in ("map", "array", "int", "immutable-map-noname", "undefined", "bytes-src", "error", "string"):
         add(src="x := import(\"weird\")\ny := import(\"weird\")\nz := [x, y]\n", tag="importable:" + kind, weird=kind, imports=True, run=True)
